@@ -27,6 +27,7 @@ type verifRec struct {
 	version uint64
 	value   []byte
 	meta    byte
+	expires uint64
 }
 
 type verifMVCCStore struct {
@@ -118,7 +119,7 @@ func verifModelInternalIterator(opt *utils.Options) *verifModelIter {
 	}
 	it := &verifModelIter{asc: asc}
 	for _, r := range verifMVCC.recs {
-		it.ents = append(it.ents, &kv.Entry{Key: kv.InternalKey(r.cf, r.key, r.version), Value: kv.SafeCopy(nil, r.value), Meta: r.meta, Version: r.version, CF: r.cf})
+		it.ents = append(it.ents, &kv.Entry{Key: kv.InternalKey(r.cf, r.key, r.version), Value: kv.SafeCopy(nil, r.value), Meta: r.meta, Version: r.version, CF: r.cf, ExpiresAt: r.expires})
 	}
 	sort.Slice(it.ents, func(i, j int) bool {
 		c := utils.CompareKeys(it.ents[i].Key, it.ents[j].Key)
